@@ -29,6 +29,19 @@ def run_ops(ops):
             if kind == 'diff':
                 b, l, r = triple(op[1], op[2])
                 out.append(digest(nbd.diff_notebooks(b, l if op[3] == 'l' else r)))
+            elif kind == 'diffk':
+                # a pair that differs exactly in the key-filtered categories (id, execution_count, attachments key)
+                import copy
+                b, l, r = triple(op[1], op[2])
+                v = copy.deepcopy(b)
+                for ci, c in enumerate(v['cells']):
+                    if 'id' in c:
+                        c['id'] = c['id'] + 'k'
+                    if c['cell_type'] == 'code':
+                        c['execution_count'] = (c['execution_count'] or 0) + 3
+                    if c['cell_type'] == 'markdown' and 'attachments' not in c:
+                        c['attachments'] = {'k.png': {'image/png': nbspace.B64}}
+                out.append(digest(nbd.diff_notebooks(b, v)))
             elif kind == 'merge':
                 b, l, r = triple(op[1], op[2])
                 m, dec = merge_notebooks(b, l, r, mergespace.args_for(*op[3]))
